@@ -38,13 +38,13 @@ def idx64(v):
 
 class StrVal:
     """string / raw buffer: length counter + byte array (z3 Array BV64 -> BV8; only [0,size) is meaningful)"""
-    __slots__ = ('len', 'arr')
+    __slots__ = ('len', 'arr', 'alloc')
 
-    def __init__(self, ln, arr):
-        self.len, self.arr = ln, arr
+    def __init__(self, ln, arr, alloc=True):
+        self.len, self.arr, self.alloc = ln, arr, alloc     # alloc: is the (on-demand) buffer allocated (python bool / z3 Bool)
 
     def copy(self):
-        return StrVal(self.len, self.arr)
+        return StrVal(self.len, self.arr, self.alloc)
 
     def byte(self, i):
         return z3.Select(self.arr, idx64(i))
@@ -104,7 +104,7 @@ class Layout:
                 inv.append(z3.ULE(ln, self.cap[n]))
         return d, inv
 
-    def initial(self, start_actions=(), symbolic_uninit=False):
+    def initial(self, start_actions=(), symbolic_uninit=False, ondemand=False):
         """data after start(): defaults (concrete); outputs without default are indeterminate (None) or named unknowns"""
         d = Data(self)
         for n, o in self.spec.items():
@@ -128,7 +128,7 @@ class Layout:
                         arr = z3.Store(arr, idx64(i), z3.BitVecVal(b, 8))
                     if o.type == OST.STR and o.str_null and ln < self.size[n]:
                         arr = z3.Store(arr, idx64(ln), z3.BitVecVal(0, 8))
-                d.strs[n] = StrVal(z3.BitVecVal(ln, self.cnt[n].w), arr)
+                d.strs[n] = StrVal(z3.BitVecVal(ln, self.cnt[n].w), arr, alloc=(dv is not None) if ondemand else True)
         return d
 
 
@@ -281,7 +281,7 @@ class Unwind(Exception):
 
 class Machine:
     def __init__(self, snap, layout, strict_done=False, unsafe_index=False, str_signed_char=False, max_moves=None,
-                 program_codes=None):
+                 program_codes=None, free_on_delete=False):
         self.m = snap
         self.layout = layout
         self.strict = strict_done
@@ -289,6 +289,7 @@ class Machine:
         self.str_signed_char = str_signed_char
         self.max_moves = max_moves or (len(snap.states) + 2)
         self.null_strs = ()
+        self.free_on_delete = free_on_delete
 
     # ---- actions ------------------------------------------------------------------------
     def cond(self, ctx, c, data, last, ub):
@@ -329,6 +330,7 @@ class Machine:
             if a.into_storage.str_null:
                 s.arr = z3.Store(s.arr, idx64(len(raw)), z3.BitVecVal(0, 8))
             s.len = z3.BitVecVal(len(raw), L.cnt[n].w)
+            s.alloc = True
             data.strs[n] = s
             return None
         if isinstance(a, N.DeleteBuf):
@@ -337,12 +339,16 @@ class Machine:
             s.len = z3.BitVecVal(0, L.cnt[n].w)
             if a.into_storage.type == OST.STR and a.into_storage.str_null:
                 s.arr = z3.Store(s.arr, idx64(0), z3.BitVecVal(0, 8))   # an empty terminated string is "" (NUL at its length)
+            if self.free_on_delete and a.into_storage.type == OST.STR:
+                s.alloc = False
             data.strs[n] = s
             return None
         if isinstance(a, (N.AppendTo, N.AppendCharTo)):
             n = a.into_storage.name
             s = data.strs[n]
             cap = L.cap[n]
+            if s.alloc is not True:
+                s = s.copy(); s.alloc = True; data.strs[n] = s     # the on-demand buffer is allocated before the capacity test
             if ctx.br(z3.UGE(s.len, cap)):
                 return ('goto', a.end_target)
             if isinstance(a, N.AppendTo):
